@@ -145,7 +145,7 @@ func model(c Case) (pass bool, listedErr bool) {
 			continue
 		}
 		content, ok := c.Stores[ref]
-		if !ok || content == "" || strings.ContainsAny(content, "ESD") {
+		if !ok || content == "" || strings.ContainsAny(content, "ESD0") {
 			return false, true // a listed store of the required type cannot be loaded
 		}
 		if c.RealStore && strings.Contains(content, "l") {
@@ -201,6 +201,8 @@ func check(c Case) (string, string, bool) {
 				os.WriteFile(filepath.Join(target, "root.pem"), pki.PEM(chain.Root().Cert), 0o644)
 				os.MkdirAll(filepath.Dir(d), 0o755)
 				os.Symlink(target, d)
+			case content == "0":
+				os.MkdirAll(d, 0o755) // the store exists and holds nothing: unloadable, like a missing one
 			case strings.Contains(content, "D"):
 				// an unrelated root in a regular file, the signer's root one level down: a named store
 				// is a flat directory of certificate files, one holding a sub-directory is unloadable
@@ -420,6 +422,9 @@ func record(rec *stats.Recorder, c Case, pass bool) {
 			if listed[ref] && strings.Contains(content, "D") {
 				cl = append(cl, "listed-store-holds-sub-directory")
 			}
+			if listed[ref] && content == "0" {
+				cl = append(cl, "listed-store-is-an-empty-directory")
+			}
 		}
 	}
 	if c.Plugin != "" {
@@ -463,7 +468,8 @@ func dedup(in []string) []string {
 	return out
 }
 
-var universe = []string{"ca:a", "ca:b", "signingAuthority:a", "signingAuthority:b", "tsa:a", "tsa:b"}
+// "a." is a store name of its own (file-name characters only), not another spelling of "a"
+var universe = []string{"ca:a", "ca:b", "signingAuthority:a", "signingAuthority:b", "tsa:a", "tsa:b", "ca:a.", "signingAuthority:a."}
 var unlistedStores = []string{"ca:unlisted", "signingAuthority:unlisted", "tsa:unlisted"}
 
 func TestC03_Placements(t *testing.T) {
@@ -474,7 +480,7 @@ func TestC03_Placements(t *testing.T) {
 		c.RealStore = rapid.IntRange(0, 5).Draw(rt, "realStore") == 0
 		contents := []string{"", "E", "u", "r", "i", "l", "ur", "ru", "il", "uE", "rE"}
 		if c.RealStore { // the directory store only loads CA / self-signed certificates: a leaf makes a store unloadable
-			contents = []string{"", "E", "u", "r", "i", "ur", "ru", "iu", "uE", "rE", "S", "S", "ul", "rl", "il", "uD", "uD"}
+			contents = []string{"", "E", "u", "r", "i", "ur", "ru", "iu", "uE", "rE", "S", "S", "ul", "rl", "il", "uD", "uD", "0", "0"}
 		}
 		for _, ref := range append(append([]string{}, universe...), unlistedStores...) {
 			content := rp.Pick(rt, "content:"+ref, contents...)
